@@ -293,6 +293,59 @@ func buildSet(kind string, f func(a, b int) int, members []int, viaRemove bool, 
 	return s
 }
 
+// buildSetMode: the same members, arrived at in different ways - the constructor, a history with removals, and as the RESULT
+// of Select, of Map, of a set operation, of a load (a result is a set like any other: the algebra must take it as an operand)
+func buildSetMode(kind string, f func(a, b int) int, members []int, mode, n int) sets.Set[int] {
+	switch mode {
+	case 0:
+		return buildSet(kind, f, members, false, n)
+	case 1:
+		return buildSet(kind, f, members, true, n)
+	}
+	base := buildSet(kind, f, members, false, n)
+	in := map[int]bool{}
+	for _, m := range members {
+		in[m] = true
+	}
+	switch t := base.(type) {
+	case *treeset.Set[int]:
+		switch mode {
+		case 2:
+			t.Add(n+1, n+2)
+			return t.Select(func(i, v int) bool { return in[v] })
+		case 3:
+			return t.Map(func(i, v int) int { return v })
+		case 4:
+			return t.Union(t)
+		}
+	case *linkedhashset.Set[int]:
+		switch mode {
+		case 2:
+			t.Add(n+1, n+2)
+			return t.Select(func(i, v int) bool { return in[v] })
+		case 3:
+			return t.Map(func(i, v int) int { return v })
+		case 4:
+			return t.Union(t)
+		}
+	case *hashset.Set[int]:
+		if mode == 4 || mode == 2 {
+			return t.Union(t)
+		}
+		if mode == 3 {
+			return t.Intersection(t)
+		}
+	}
+	// 5: a load of the members' JSON text into a fresh set
+	fresh := newSet(kind, f)
+	if b, err := json.Marshal(ints(members)); err == nil {
+		if j, ok := fresh.(jsonable); ok && j.FromJSON(b) == nil {
+			return fresh
+		}
+	}
+	return base
+}
+
 func subsets(n int) [][]int {
 	var out [][]int
 	for m := 0; m < 1<<n; m++ {
@@ -387,13 +440,16 @@ func jobAlg(j *jobCtx) {
 						if alias && ai != bi {
 							continue
 						}
-						viaRemove := (ai+bi)%2 == 1 && !huge
+						modeA, modeB := (ai*5+bi)%6, (ai+bi*5+3)%6
+						if huge {
+							modeA, modeB = 0, 0
+						}
 						var a, b sets.Set[int]
 						gi := guard("alg", c.kind, "Build", func() {
-							a = buildSet(c.kind, f, am, viaRemove, n)
+							a = buildSetMode(c.kind, f, am, modeA, n)
 							b = a
 							if !alias {
-								b = buildSet(c.kind, f, bm, !viaRemove && !huge, n)
+								b = buildSetMode(c.kind, f, bm, modeB, n)
 							}
 						})
 						if gi.Panic || a == nil || b == nil {
